@@ -319,6 +319,11 @@ def r3(cx):
                         "compaction drops a version that is the one an open snapshot reads (no newer version in the same visibility boundary): the reader loses its value "
                         "(all failing combinations have `latest version is a hard delete at the bottom level`, which discards every version of the key before snapshots are consulted)",
                         info["region_start"])
+    cp.check_obligation(cx, rows, "a tombstone that an open snapshot reads (not superseded in its boundary, not the bottom-level drop-all case) is written to the output",
+                        lambda t: t["hard_delete"] and not t["latest_del_bottom"] and t["cur_vis"] == "Bounded" and not cp.superseded(t) and (not t["is_latest"] or not t["bottom"]), True,
+                        "snapshot-tombstone-dropped",
+                        "compaction drops a hard-delete tombstone that is the version an open snapshot reads: that reader then finds an older value of the deleted key",
+                        info["region_start"])
     cp.check_obligation(cx, rows, "a version is only treated as superseded when a newer version exists in the same visibility boundary",
                         lambda t: t["cur_vis"] == "Bounded" and t["is_latest"] and not t["hard_delete"], True, "latest-snapshot-version-dropped",
                         "the newest version visible to a snapshot is dropped", info["region_start"])
